@@ -248,6 +248,9 @@ def ops_for(t, sub):
         out += [('func', 'substr', [x, a, b], STR) for x in sub(STR) for a in sub(INT)[:3] for b in sub(INT)[:3]]
         out += [('coalesce', [l, r]) for l in sub(STR) for r in sub(STR)]
         out += [('func', 'str', [x], STR) for x in sub(INT)]
+        # the text keeps the exponent: 2 and 2.0 are equal numbers with different texts (columns only: a literal is written with the
+        # digits its value has, not necessarily those of the pool entry)
+        out += [('func', 'str', [x], STR) for x in sub(DEC) if x[0] == 'col']
     elif t == DATE:
         out += [('bin', '+', l, r) for l in sub(DATE) for r in sub(INT)]
         out += [('bin', '+', l, r) for l in sub(INT) for r in sub(DATE)]
